@@ -1,7 +1,7 @@
 (* C08 — treespec inspection, constructors, transform and compose are consistent.
    Statements only; proofs in proofs/SpecProofs.v and proofs/InspectProofs.v. *)
-From OptreeModel Require Import Base Tree Flatten Unflatten Spec.
-From OptreeProofs Require Import SpecProofs InspectProofs.
+From OptreeModel Require Import Base Tree Flatten Unflatten Spec ArraySpec.
+From OptreeProofs Require Import SpecProofs InspectProofs ArrayProofs.
 
 (* Every treespec flatten returns is the post-order encoding of a well-formed structured treespec
    (arity, num_leaves and num_nodes consistent at every node) whose leaf count is the number of
@@ -72,6 +72,27 @@ Proof. exact transform_leaves_is_compose. Qed.
 Print Assumptions C08_transform_leaves_is_compose.
 
 (* non-vacuity *)
+(* ARRAY LEVEL. The engine does not store a tree: it finds the children by walking the post-order node
+   array backwards from the end, skipping whole subtrees by their stored num_nodes (Children(), Child();
+   the same walk underlies Paths, Accessors, IsPrefix, BroadcastToCommonSuffix, FlattenUpTo). For every
+   well-formed treespec that walk returns exactly the arrays of the children of the structured
+   treespec, in order, and never runs into one of its internal-error checks. *)
+Theorem C08_array_children :
+  forall t, wf_stree t = true -> arr_children (encode t) = Ok (map encode (st_children t)).
+Proof. exact arr_children_spec. Qed.
+Print Assumptions C08_array_children.
+
+(* in particular for everything flatten produces *)
+Corollary C08_array_children_of_flatten :
+  forall c o ls sp, flatten c o = Ok (ls, sp) ->
+  exists s, sspec_of sp = Some s /\
+            arr_children (trav sp) = Ok (map encode (st_children (stree_of s))).
+Proof.
+  intros c o ls sp H. destruct (flatten_decodes c o ls sp H) as (s & Hs & Hw & _ & Hsp).
+  exists s. split; [exact Hs|]. rewrite <- Hsp. unfold spec_of. cbn [trav]. apply arr_children_spec. exact Hw.
+Qed.
+Print Assumptions C08_array_children_of_flatten.
+
 Example C08_example :
   let c := {| c_nil := false; c_ns := 0; c_pred := None; c_reg := []; c_ins := []; c_limit := 1000 |} in
   let o := Node (HDict [KStr [98]; KStr [97]]) [Node HTuple [Leaf 1; Leaf 2]; Node HList [Leaf 3]] in
